@@ -585,7 +585,9 @@ def gen_e2e(rng, search, cores=1, thorough=False, force_reject=False, force_chun
             width = 0.4
             a = lo + (hi - lo) * (0.55 if (t - lo) / (hi - lo) < 0.5 else 0.05)
         case["reject"] = [path.split("."), a, a + (hi - lo) * width, reject_mode]
-    case["ret"] = ret
+    # (BFGS / LBFGS keep the figure of merit as the likelihood hands it over: with a 0-d array the fit dies in
+    #  save_samples_summary -- "ndarray is not JSON serializable" -- and returns no result at all: outside C05's statement)
+    case["ret"] = "np64" if (ret == "np0d" and search in ("bfgs", "lbfgs")) else ret
     if prefit:
         # history: the same search object first fits ANOTHER model with another likelihood
         pspec = gen_spec(rng, max_priors=2)
